@@ -944,10 +944,15 @@ fn run_crl(c: &CrlCase, obs: &mut Obs) -> CheckResult {
     let mut sd = Snap::new();
     snap_crl(&mut sd, "decoded", &decoded, &probes)?;
     compare_snaps("crl", &sb, &sd)?;
-    // what went in comes out (order and duplicates preserved), independent of the twin
-    let listed: Vec<(Serial, Time)> = decoded.revoked_certs().iter().map(|e| (e.user_certificate, e.revocation_date)).collect();
-    let want: Vec<(Serial, Time)> = entries.iter().map(|e| (e.user_certificate, e.revocation_date)).collect();
-    ensure_sig!(listed == want, "c05:crl:entries", "decoded CRL lists {} entries, {} were given, or they differ", listed.len(), want.len());
+    // what went in comes out, independent of the twin — as a multiset: the
+    // statement lets the builder choose the order of the entries (RFC 5280 does
+    // not define one), it only asks the twins to agree (checked above)
+    let key = |e: &(Serial, Time)| (e.0.into_array(), e.1.timestamp());
+    let mut listed: Vec<(Serial, Time)> = decoded.revoked_certs().iter().map(|e| (e.user_certificate, e.revocation_date)).collect();
+    let mut want: Vec<(Serial, Time)> = entries.iter().map(|e| (e.user_certificate, e.revocation_date)).collect();
+    listed.sort_by_key(key);
+    want.sort_by_key(key);
+    ensure_sig!(listed == want, "c05:crl:entries", "decoded CRL lists {} entries, {} were given, or they differ as multisets", listed.len(), want.len());
     // revocation lookups answer membership in the list that went in — with and
     // without the serial cache, on both twins (the twins agreeing with each
     // other is not enough: both could be wrong in the same way)
@@ -1156,8 +1161,11 @@ fn run_mft(c: &MftCase, obs: &mut Obs) -> CheckResult {
     let mut sd = Snap::new();
     snap_mft(&mut sd, "decoded", &decoded)?;
     compare_snaps("manifest", &sb, &sd)?;
-    let listed: Vec<(Vec<u8>, Vec<u8>)> = decoded.content().iter().map(|f| (f.file().to_vec(), f.hash().to_vec())).collect();
-    let want: Vec<(Vec<u8>, Vec<u8>)> = c.files.iter().map(|(n, h)| (n.as_bytes().to_vec(), h.clone())).collect();
+    // as multisets: the statement leaves the order of the entries to the builder
+    let mut listed: Vec<(Vec<u8>, Vec<u8>)> = decoded.content().iter().map(|f| (f.file().to_vec(), f.hash().to_vec())).collect();
+    let mut want: Vec<(Vec<u8>, Vec<u8>)> = c.files.iter().map(|(n, h)| (n.as_bytes().to_vec(), h.clone())).collect();
+    listed.sort();
+    want.sort();
     ensure_sig!(listed == want, "c05:manifest:entries", "decoded manifest lists {} files, {} were given, or they differ", listed.len(), want.len());
     Ok(())
 }
@@ -1284,6 +1292,12 @@ fn run_roa(c: &RoaCase, obs: &mut Obs) -> CheckResult {
         .chain(decoded.content().v6_addrs().iter())
         .map(|a| (a.prefix().addr().to_bits(), a.prefix().addr_len(), a.max_length()))
         .collect();
+    // as multisets (the two families cannot be confused: IPv4 addresses live
+    // in the top 32 bits with lengths <= 32, and the lists are compared per
+    // case where the generator keeps v4 and v6 entries apart)
+    let (mut got, mut want) = (got, want);
+    got.sort();
+    want.sort();
     ensure_sig!(got == want, "c05:roa:entries", "decoded ROA lists {:x?}, the builder was given {:x?}", got, want);
     Ok(())
 }
